@@ -1,0 +1,48 @@
+//go:build verif
+// +build verif
+
+package flate
+
+// VerifDict exposes the unexported dictDecoder to the correspondence harness
+// (coq/Window/Dict.v). Add-only; compiled only with the verif tag.
+type VerifDict struct{ dd dictDecoder }
+
+// InitWith makes dd.hist the recycled buffer (nil, or a non-nil slice of length 0
+// whose backing array is recycled[:cap(recycled)]) and calls Init(size), exactly
+// as Reader.Reset does with the dictionary of a previous stream.
+func (v *VerifDict) InitWith(size int, recycled []byte) {
+	v.dd = dictDecoder{}
+	if recycled != nil {
+		v.dd.hist = recycled[:0]
+	}
+	v.dd.Init(size)
+}
+
+// Init re-initialises on the current buffer (Reader.Reset).
+func (v *VerifDict) Init(size int) { v.dd.Init(size) }
+
+func (v *VerifDict) HistSize() int    { return v.dd.HistSize() }
+func (v *VerifDict) AvailSize() int   { return v.dd.AvailSize() }
+func (v *VerifDict) WriteByte(c byte) { v.dd.WriteByte(c) }
+func (v *VerifDict) TryWriteCopy(dist, length int) int {
+	return v.dd.TryWriteCopy(dist, length)
+}
+func (v *VerifDict) WriteCopy(dist, length int) int { return v.dd.WriteCopy(dist, length) }
+
+// WriteRaw is what readRawData does: copy into WriteSlice(), then WriteMark.
+// The caller is responsible for len(bs) <= AvailSize().
+func (v *VerifDict) WriteRaw(bs []byte) int {
+	n := copy(v.dd.WriteSlice(), bs)
+	v.dd.WriteMark(len(bs))
+	return n
+}
+
+// ReadFlush returns a copy of the flushed bytes (the slice aliases the window).
+func (v *VerifDict) ReadFlush() []byte {
+	return append([]byte{}, v.dd.ReadFlush()...)
+}
+
+// Shape reports len(hist), cap(hist), wrPos, rdPos, full.
+func (v *VerifDict) Shape() (int, int, int, int, bool) {
+	return len(v.dd.hist), cap(v.dd.hist), v.dd.wrPos, v.dd.rdPos, v.dd.full
+}
